@@ -887,7 +887,9 @@ func (ag *aggrGroup) insert(ctx context.Context, alert *alert.Alert) bool {
 		trace.WithSpanKind(trace.SpanKindInternal),
 	)
 	defer span.End()
-	if err := ag.alerts.Set(alert); err != nil {
+	// The ingestion workers can process two updates of the same alert out of
+	// order; never let the older version overwrite the newer one.
+	if _, err := ag.alerts.SetIfNotOlder(alert); err != nil {
 		if errors.Is(err, store.ErrDestroyed) {
 			return false
 		}
